@@ -11,6 +11,7 @@ import NrDaemon.Driver.Json
 import NrDaemon.Driver.Config
 import NrDaemon.Driver.Redact
 import NrDaemon.Driver.SpanQueue
+import NrDaemon.Driver.Trigger
 /-!
   Op-line driver (core Lean only; built as a `lean_exe`).
 
@@ -24,6 +25,7 @@ structure DState where
   proc : ProcEng := {}
   lim : LimEng := {}
   sq : SQEng := {}
+  trig : TrigEng := {}
 
 def dispatch (st : DState) (line : String) (impl : Option String) : DState × StepOut :=
   let t := tokenize line
@@ -44,6 +46,7 @@ def dispatch (st : DState) (line : String) (impl : Option String) : DState × St
   | some "flags" => (st, flagsStep t impl)
   | some "argv" => (st, argvStep t impl)
   | some "redact" => (st, redactStep t impl)
+  | some "trig" => let (c, o) := trigStep st.trig t impl; ({ st with trig := c }, o)
   | some "spanq" => let (c, o) := spanqStep st.sq t impl; ({ st with sq := c }, o)
   | some "reset" => ({}, { model := "ok" })
   | _ => (st, { model := "bad-op" })
